@@ -115,6 +115,9 @@ def gen_ann(rng, kinds, names, hooks, deps, depth=0):
         if deps and "d" in kinds and rng.random() < 0.3:
             d = rng.choice(deps)
             anns[-1] = ["d", anns[-1][1], d]
+            if len(deps) >= 2 and rng.random() < 0.5:
+                # both members value-dependent (their checking code is combined)
+                anns[0] = ["d", anns[0][1], [x for x in deps if x != d][0]]
         return ["i", anns]
     if k == "x":
         return ["x", rng.choice(names)]
